@@ -93,6 +93,38 @@ def _guard_helper(facts, h):
     return res
 
 
+def _self_guard_helper(facts, h, _depth=[0]):
+    """is h a small `fn(&self) -> Result<()>` whose writable edge returns Ok and whose read-only edge returns Err?"""
+    cache = getattr(facts, '_self_guard_helpers', None)
+    if cache is None:
+        cache = facts._self_guard_helpers = {}
+    if h.path in cache:
+        return cache[h.path]
+    cache[h.path] = False
+    if _depth[0] > 2 or len(h.blocks) > 14 or not h.locals[0]['ty'].startswith('std::result::Result<()') or h.argc < 1:
+        return False
+    from flow import DefUse
+    _depth[0] += 1
+    try:
+        tests = writable_tests(facts, h, DefUse(facts, h))
+    finally:
+        _depth[0] -= 1
+    if len(tests) != 1:
+        return False
+    tb, tt, ft = tests[0]
+
+    def kinds(start):
+        ks = set()
+        for bb in h.reach_from([start]):
+            for s in h.blocks[bb]['stmts']:
+                if s['k'] == 'assign' and s['p']['l'] == 0 and s['rv']['k'] == 'agg':
+                    ks.add(s['rv'].get('variant'))
+        return ks
+    res = kinds(tt) == {'Ok'} and kinds(ft) == {'Err'}
+    cache[h.path] = res
+    return res
+
+
 def writable_tests(facts, fn, du):
     """[(switch_bb, true_target (writable), false_target (read-only))]"""
     out = []
@@ -110,6 +142,12 @@ def writable_tests(facts, fn, du):
         if h is None:
             continue
         p = _guard_helper(facts, h)
+        if p is None and _self_guard_helper(facts, h):
+            # `self.writable()?` -- a method that tests the writable bit of its own receiver and returns ReadOnlyTx otherwise
+            rs = result_switch(fn, bb)
+            if rs and rs['ok'] is not None and rs.get('err') is not None:
+                out.append((rs['switch_bb'], rs['ok'], rs['err']))
+            continue
         if p is None or p - 1 >= len(t['args']):
             continue
         a = op_place(t['args'][p - 1])
